@@ -106,11 +106,12 @@ func (s *socket) AddPipe(pp protocol.Pipe) error {
 		p:      pp,
 		s:      s,
 		closeq: make(chan struct{}),
-		sendq:  make(chan *protocol.Message, s.sendQLen),
 	}
 	pp.SetPrivate(p)
 	s.Lock()
 	defer s.Unlock()
+	// sized under the lock: SetOption may be changing the length
+	p.sendq = make(chan *protocol.Message, s.sendQLen)
 	if s.closed {
 		return protocol.ErrClosed
 	}
